@@ -153,28 +153,34 @@ Proof. rewrite evs_list_bytes. apply enc_forest_list_len. Qed.
 
 Lemma xbytes_cons x l : xbytes (x :: l) = x_bytes x ++ xbytes l. Proof. reflexivity. Qed.
 
+Definition tail_evs_of (codes : coding) (bigend : bool) (d : Z) (off : N) (t : tree) : list xev :=
+  if has_children t
+  then on_list (evs codes bigend (d + 1)) (tree_size codes) (kids_off codes off t) (t_kids t) ++
+       [null_ev (off + tree_size codes t - 1) (d + 1)]
+  else [].
+
 Lemma evs_locate codes bigend : forall t0 d off o t,
   In (o, t) (placed codes off t0) ->
-  exists l1 l2 dd, evs codes bigend d off t0 = l1 ++ head_ev codes bigend dd o t :: l2 /\
+  exists l1 l2 dd, evs codes bigend d off t0 = l1 ++ evs codes bigend dd o t ++ l2 /\
                    o = off + nlen (xbytes l1) /\ end_depth d l1 = dd.
 Proof.
   induction t0 as [tag flag items kids IH] using tree_ind'. intros d off o t Hin.
   set (t0 := Node tag flag items kids) in *.
   rewrite placed_unfold in Hin. change (t_kids t0) with kids in Hin. destruct Hin as [Heq|Hin].
-  - inversion Heq; subst o t. exists [], (tl (evs codes bigend d off t0)), d.
-    split; [rewrite evs_unfold; reflexivity|]. split; [change (nlen (xbytes [])) with 0; lia|reflexivity].
+  - inversion Heq; subst o t. exists [], [], d.
+    split; [rewrite app_nil_r; reflexivity|]. split; [change (nlen (xbytes [])) with 0; lia|reflexivity].
   - destruct (on_list_in _ _ _ _ _ Hin) as (la & k & lb & Ek & Hk).
     rewrite Forall_forall in IH. assert (Hkin : In k kids) by (rewrite Ek; apply in_or_app; right; left; reflexivity).
     destruct (IH k Hkin (d + 1)%Z _ o t Hk) as (m1 & m2 & dd & Em & Ho & Hd).
     assert (Hc : has_children t0 = true).
     { destruct (has_children t0) eqn:E; [reflexivity|]. apply no_children_no_kids in E.
       change (t_kids t0) with kids in E. rewrite E in Hkin. destruct Hkin. }
-    rewrite evs_unfold, Hc. change (t_kids t0) with kids.
+    rewrite (evs_unfold codes bigend d off t0), Hc. change (t_kids t0) with kids.
     fold (evs_list codes bigend (d + 1) (kids_off codes off t0) kids).
     rewrite Ek, evs_list_app. unfold evs_list at 2. rewrite on_list_cons. unfold forest_size. rewrite Em.
     exists (head_ev codes bigend d off t0 :: evs_list codes bigend (d + 1) (kids_off codes off t0) la ++ m1).
     eexists. exists dd. split; [|split].
-    + cbn [app]. f_equal. rewrite <- !app_assoc. cbn [app]. reflexivity.
+    + cbn [app]. f_equal. rewrite <- !app_assoc. reflexivity.
     + rewrite xbytes_cons, xbytes_app, !nlen_app, evs_list_len. cbn [head_ev x_bytes].
       rewrite head_bytes_len. pose proof (kids_off_ge codes off t0). unfold forest_size in *. lia.
     + cbn [end_depth head_ev x_post]. rewrite end_depth_app.
@@ -184,26 +190,29 @@ Qed.
 
 Lemma evs_list_locate codes bigend d : forall f off o t,
   In (o, t) (on_list (placed codes) (tree_size codes) off f) ->
-  exists l1 l2 dd, evs_list codes bigend d off f = l1 ++ head_ev codes bigend dd o t :: l2 /\
+  exists l1 l2 dd, evs_list codes bigend d off f = l1 ++ evs codes bigend dd o t ++ l2 /\
                    o = off + nlen (xbytes l1) /\ end_depth d l1 = dd.
 Proof.
   intros f off o t Hin. destruct (on_list_in _ _ _ _ _ Hin) as (la & k & lb & -> & Hk).
   destruct (evs_locate codes bigend k d _ o t Hk) as (m1 & m2 & dd & Em & Ho & Hd).
   rewrite evs_list_app. unfold evs_list at 2. rewrite on_list_cons. unfold forest_size. rewrite Em.
   exists (evs_list codes bigend d off la ++ m1). eexists. exists dd. split; [|split].
-  - rewrite <- !app_assoc. cbn [app]. reflexivity.
+  - rewrite <- !app_assoc. reflexivity.
   - rewrite xbytes_app, nlen_app, evs_list_len. unfold forest_size in *. lia.
   - rewrite end_depth_app. destruct (evs_list_chain codes bigend d la off) as [_ E]. rewrite E. exact Hd.
 Qed.
 
 Lemma body_locate codes bigend off f pad o t :
   In (o, t) (on_list (placed codes) (tree_size codes) off f) ->
-  exists l1 l2 dd, body_evs codes bigend off f pad = l1 ++ head_ev codes bigend dd o t :: l2 /\
+  exists l1 l2 dd, body_evs codes bigend off f pad =
+                     l1 ++ head_ev codes bigend dd o t :: tail_evs_of codes bigend dd o t ++ l2 /\
                    o = off + nlen (xbytes l1) /\ end_depth 0 l1 = dd.
 Proof.
   intros Hin. destruct (evs_list_locate codes bigend 0 f off o t Hin) as (l1 & l2 & dd & E & Ho & Hd).
-  unfold body_evs. rewrite E. exists l1. eexists. exists dd. split; [|split; assumption].
-  rewrite <- app_assoc. cbn [app]. reflexivity.
+  unfold body_evs. rewrite E. exists l1, (l2 ++ pad_evs (off + forest_size codes f) 0 pad), dd.
+  split; [|split; assumption].
+  rewrite evs_unfold. fold (tail_evs_of codes bigend dd o t). rewrite <- !app_assoc. cbn [app].
+  reflexivity.
 Qed.
 
 Lemma entries_at_offset_raw dbg h o r :
@@ -276,7 +285,7 @@ Section Unit.
     entry_at dbg hdr tbl o = Ok (root_die codes o 0 t).
   Proof.
     intros Hin. destruct (body_locate codes bigend hl f pad o t Hin) as (l1 & l2 & dd & Eb & Ho & Hd).
-    destruct (positioned l1 (head_ev codes bigend dd o t :: l2) o Eb ltac:(discriminate) Ho) as [Hraw Hat].
+    destruct (positioned l1 (head_ev codes bigend dd o t :: tail_evs_of codes bigend dd o t ++ l2) o Eb ltac:(discriminate) Ho) as [Hraw Hat].
     unfold entry_at. rewrite Hraw. cbn [bind].
     cbn [map] in Hat. destruct (at_chain_step _ _ _ _ _ _ _ _ Hat) as (Hr & _).
     change (u_enc hdr) with e. rewrite Hr. cbn [bind].
@@ -297,18 +306,18 @@ Section Unit.
       dfs_all (cursor_fuel c) dbg e tbl c = Ok (map (shift_die dd) (root_die codes o dd t :: p2), None).
   Proof.
     intros Hin. destruct (body_locate codes bigend hl f pad o t Hin) as (l1 & l2 & dd & Eb & Ho & Hd).
-    destruct (positioned l1 (head_ev codes bigend dd o t :: l2) o Eb ltac:(discriminate) Ho) as [Hraw Hat].
+    destruct (positioned l1 (head_ev codes bigend dd o t :: tail_evs_of codes bigend dd o t ++ l2) o Eb ltac:(discriminate) Ho) as [Hraw Hat].
     assert (Hn : node_ok codes e t).
     { unfold forest_ok in Hok. rewrite Forall_forall in Hok. apply Hok.
       rewrite <- (placed_list_nodes codes f hl). apply (in_map snd) in Hin. exact Hin. }
-    exists (filter not_null (map x_die l1)), (filter not_null (map x_die l2)), dd.
+    exists (filter not_null (map x_die l1)), (filter not_null (map x_die (tail_evs_of codes bigend dd o t ++ l2))), dd.
     eexists. split; [|split].
     - rewrite <- (raw_seq_preorder codes e hl f pad Hok), <- body_evs_dies with (bigend := bigend), Eb.
       rewrite map_app, filter_app. cbn [map filter head_ev x_die]. unfold not_null at 2.
       rewrite (root_die_not_null codes e o dd t Hn). reflexivity.
     - apply entries_at_offset_raw. exact Hraw.
-    - set (c := mkCur (mkRaw (xbytes (head_ev codes bigend dd o t :: l2)) E 0) null_die).
-      change (mkRaw (xbytes (head_ev codes bigend dd o t :: l2)) E 0) with (c_raw c) in Hat.
+    - set (c := mkCur (mkRaw (xbytes (head_ev codes bigend dd o t :: tail_evs_of codes bigend dd o t ++ l2)) E 0) null_die).
+      change (mkRaw (xbytes (head_ev codes bigend dd o t :: tail_evs_of codes bigend dd o t ++ l2)) E 0) with (c_raw c) in Hat.
       pose proof (at_chain_fuel _ _ _ _ _ _ Hat) as Hf. unfold cursor_fuel.
       rewrite (dfs_all_chain dbg e tbl _ _ _ c Hat Hf). rewrite Hd, filter_shift.
       cbn [map filter head_ev x_die]. unfold not_null at 1.
@@ -362,11 +371,14 @@ Proof.
   destruct (read_entry dbg e tbl r) as [[[ok d] r']| | |]; reflexivity.
 Qed.
 
-Definition tail_evs (codes : coding) (bigend : bool) (d : Z) (off : N) (t : tree) : list xev :=
+Definition tail_evs := tail_evs_of.
+Lemma tail_evs_eq codes bigend d off t :
+  tail_evs codes bigend d off t =
   if has_children t
   then evs_list codes bigend (d + 1) (kids_off codes off t) (t_kids t) ++
        [null_ev (off + tree_size codes t - 1) (d + 1)]
   else [].
+Proof. reflexivity. Qed.
 
 Lemma evs_tail codes bigend d off t :
   evs codes bigend d off t = head_ev codes bigend d off t :: tail_evs codes bigend d off t.
@@ -522,7 +534,7 @@ Proof.
   - (* no jump *)
     destruct (has_children t) eqn:Hc.
     + (* through the children, then their terminator *)
-      unfold tail_evs in Hat, HE. rewrite Hc in Hat, HE. change (t_kids t) with kids in Hat, HE.
+      rewrite tail_evs_eq in Hat, HE. rewrite Hc in Hat, HE. change (t_kids t) with kids in Hat, HE.
       rewrite <- app_assoc in Hat, HE. cbn [app] in Hat, HE.
       set (nul := null_ev (off + tree_size codes t - 1) (d + 1)) in *.
       unfold post_depth in Hdep. rewrite Hc in Hdep.
@@ -542,7 +554,7 @@ Proof.
                   ltac:(lia) IH Hat Hdep HE Hpk (S f) _ null_die eq_refl) as (f' & Hf'); [rewrite Hm; exact Hoof|].
       exists (S f'). rewrite sibling_loop_S, Hcurrent, J. cbn [bind]. rewrite Hf'. apply Hm.
     + (* no children: the reader is already behind the entry *)
-      unfold tail_evs in Hat. rewrite Hc in Hat. cbn [app] in Hat.
+      rewrite tail_evs_eq in Hat. rewrite Hc in Hat. cbn [app] in Hat.
       unfold post_depth in Hdep. rewrite Hc in Hdep.
       exists (S f). rewrite sibling_loop_S, Hcurrent, J. cbn [bind].
       rewrite (at_chain_nil _ _ _ _ _ _ _ Hat), Hdep, Direct, Hr. reflexivity.
@@ -918,7 +930,7 @@ Proof.
     { unfold t2. destruct (has_children k) eqn:Hc.
       - cbn [tr_root tr_raw tr_entry t1 r_depth]. split; [reflexivity|]. split; [exact Hat2|]. split; [reflexivity|].
         right. cbn [null_at d_depth d_children]. split; [lia|reflexivity].
-      - cbn [tr_root tr_raw tr_entry t1 r_depth]. unfold tail_evs, post_depth in *. rewrite Hc in *. cbn [app] in *.
+      - cbn [tr_root tr_raw tr_entry t1 r_depth]. unfold post_depth in *. rewrite tail_evs_eq in *. rewrite Hc in *. cbn [app] in *.
         split; [reflexivity|]. split; [exact Hat1|]. split; [reflexivity|].
         right. cbn [root_die d_depth d_children]. split; [lia|exact Hc]. }
     destruct Ht2 as (Hroot & Hat3 & HD3 & Hin3).
@@ -934,7 +946,7 @@ Proof.
   rewrite placed_unfold in Hp. apply Forall_cons_iff in Hp. destruct Hp as [_ Hpk].
   change (t_kids k) with kids in *.
   destruct (has_children k) eqn:Hc.
-  - unfold tail_evs in Hat. rewrite Hc in Hat. change (t_kids k) with kids in Hat.
+  - rewrite tail_evs_eq in Hat. rewrite Hc in Hat. change (t_kids k) with kids in Hat.
     rewrite <- app_assoc in Hat. cbn [app] in Hat.
     unfold post_depth in Hdep. rewrite Hc in Hdep.
     rewrite (walk_list dbg e tbl codes E rest kids (D + 1)%Z (kids_off codes off k) _ l2 ts fuel IH Hat Hdep);
@@ -947,3 +959,114 @@ Proof.
     replace (D <? D + 1)%Z with true by lia. replace (D + 1 =? D + 1)%Z with true by lia.
     rewrite andb_false_r, Hc. cbn [negb bind]. reflexivity.
 Qed.
+
+(* shifting the events of a subtree = the events of the subtree at the shifted depth *)
+Lemma map_on_list {A B} (g : A -> B) (f : N -> tree -> list A) size : forall l off,
+  map g (on_list f size off l) = on_list (fun o t => map g (f o t)) size off l.
+Proof. induction l as [|t l IH]; intros off; [reflexivity|]. rewrite !on_list_cons, map_app, IH. reflexivity. Qed.
+
+Lemma shift_evs codes bigend k : forall t d off,
+  map (shift k) (evs codes bigend d off t) = evs codes bigend (d - k) off t.
+Proof.
+  induction t as [tag flag items kids IH] using tree_ind'. intros d off.
+  set (t := Node tag flag items kids) in *.
+  rewrite !evs_unfold. change (t_kids t) with kids. cbn [map]. rewrite shift_head. f_equal.
+  destruct (has_children t); [|reflexivity].
+  rewrite map_app. cbn [map]. rewrite shift_null. replace (d + 1 - k)%Z with (d - k + 1)%Z by lia. f_equal.
+  rewrite map_on_list. apply on_list_ext. eapply Forall_impl; [|exact IH].
+  intros k0 Hk o. cbv beta. rewrite Hk. f_equal. lia.
+Qed.
+
+Lemma shift_tail codes bigend k d off t :
+  map (shift k) (tail_evs codes bigend d off t) = tail_evs codes bigend (d - k) off t.
+Proof.
+  pose proof (shift_evs codes bigend k t d off) as H. rewrite !evs_tail in H. cbn [map] in H.
+  inversion H. reflexivity.
+Qed.
+
+Lemma nodes_le_size codes : forall t, N.of_nat (length (nodes t)) <= tree_size codes t.
+Proof.
+  induction t as [tag flag items kids IH] using tree_ind'.
+  set (t := Node tag flag items kids) in *.
+  rewrite tree_size_unfold. change (t_kids t) with kids.
+  pose proof (enc_uleb_length (t_code codes t)) as Hu. unfold nlen.
+  assert (Hk : N.of_nat (length (forest_nodes kids)) <= sumN (map (tree_size codes) kids)).
+  { clear -IH. induction kids as [|k kids IHk]; [cbn; lia|]. inversion IH; subst.
+    cbn [forest_nodes flat_map map sumN fold_right]. rewrite app_length.
+    fold (sumN (map (tree_size codes) kids)). specialize (IHk ltac:(assumption)).
+    change (flat_map nodes kids) with (forest_nodes kids). lia. }
+  cbn [nodes t length]. change (flat_map nodes kids) with (forest_nodes kids).
+  destruct (has_children t) eqn:Hc.
+  - lia.
+  - apply no_children_no_kids in Hc. change (t_kids t) with kids in Hc. subst kids. cbn [forest_nodes flat_map length]. lia.
+Qed.
+
+(* the entries of a subtree are among the entries of the tree *)
+Lemma placed_sub codes (P : N * tree -> Prop) : forall k ok0 o t,
+  In (o, t) (placed codes ok0 k) -> Forall P (placed codes ok0 k) -> Forall P (placed codes o t).
+Proof.
+  induction k as [tag flag items kids IH] using tree_ind'. intros ok0 o t Hk Hpk.
+  set (k := Node tag flag items kids) in *.
+  rewrite placed_unfold in Hk, Hpk. change (t_kids k) with kids in *. destruct Hk as [Heq|Hk].
+  - inversion Heq; subst. rewrite placed_unfold. exact Hpk.
+  - apply Forall_cons_iff in Hpk. destruct Hpk as [_ Hpk].
+    destruct (on_list_in _ _ _ _ _ Hk) as (la & k' & lb & Ek & Hk').
+    rewrite Forall_forall in IH.
+    apply (IH k' ltac:(rewrite Ek; apply in_or_app; right; left; reflexivity) _ _ _ Hk').
+    rewrite Ek, on_list_app, on_list_cons in Hpk. apply Forall_app in Hpk. destruct Hpk as [_ Hp].
+    apply Forall_app in Hp. tauto.
+Qed.
+
+Section UnitTree.
+  Variables (dbg bigend types : bool) (uoff : N) (h : uheader) (codes : coding) (f : list tree) (pad : nat)
+            (tbl : abbrevs).
+  Let e := unit_enc bigend h.
+  Let hl := header_len h.
+  Let body := enc_forest codes bigend hl f pad.
+  Let hdr := parsed_header bigend types uoff h body.
+  Hypothesis He : addr_size_ok e.
+  Hypothesis Hlen : hl + nlen body < two63.
+  Hypothesis Hcov : all_covered tbl codes f.
+  Hypothesis Hok : forest_ok codes e f.
+  Hypothesis Hfit : sibs_fit codes hl f.
+
+  (* Theorem 6a: the tree iterator started at any entry rebuilds that entry's subtree, depth 0 at the
+     entry *)
+  Lemma tree_is_forest o t :
+    In (o, t) (on_list (placed codes) (tree_size codes) hl f) ->
+    exists ts, entries_tree dbg hdr (Some o) = Ok ts /\
+               walk_tree dbg e tbl ts = Ok (Some (dtree_of codes 0 o t), None).
+  Proof.
+    intros Hin. destruct (body_locate codes bigend hl f pad o t Hin) as (l1 & l2 & dd & Eb & Ho & Hd).
+    destruct (positioned dbg bigend types uoff h codes f pad tbl He Hlen Hcov Hok Hfit l1 _ o Eb ltac:(discriminate) Ho)
+      as [Hraw Hat].
+    fold e hl body hdr in Hraw, Hat. set (E := hl + nlen body) in *.
+    assert (Hpall : Forall (placed_ok e tbl codes) (on_list (placed codes) (tree_size codes) hl f))
+      by (apply placed_ok_all; assumption).
+    assert (Hpt : Forall (placed_ok e tbl codes) (placed codes o t)).
+    { destruct (on_list_in _ _ _ _ _ Hin) as (la & k & lb & Ef & Hk).
+      rewrite Ef, on_list_app, on_list_cons in Hpall. apply Forall_app in Hpall. destruct Hpall as [_ Hp].
+      apply Forall_app in Hp. destruct Hp as [Hpk _].
+      exact (placed_sub codes (placed_ok e tbl codes) k _ o t Hk Hpk). }
+    assert (Hn : node_ok codes e t).
+    { rewrite placed_unfold in Hpt. inversion Hpt as [|? ? (_ & Hn & _) _]. exact Hn. }
+    eexists. split; [apply entries_tree_raw; exact Hraw|].
+    cbn [r_in]. unfold walk_tree, tree_root. cbn [tr_root tr_raw r_end].
+    cbn [map] in Hat.
+    destruct (at_chain_step _ _ _ _ _ _ _ _ Hat) as (Hr & Hat1 & _).
+    rewrite Hr. clear Hr Hat.
+    rewrite map_app, Hd in *. rewrite shift_head, Z.sub_diag in *.
+    fold (tail_evs codes bigend dd o t) in Hat1 |- *. rewrite shift_tail, Z.sub_diag in *.
+    change bigend with (be e) in Hat1 |- *.
+    cbn [head_ev x_die x_post bind] in Hat1 |- *. rewrite (root_die_not_null codes e o 0 t Hn). cbn [negb tr_entry].
+    set (t1 := mkTree _ _ _).
+    rewrite (walk_tree_claim dbg e tbl codes E [] t 0%Z o _ t1 _ eq_refl Hat1 eq_refl Hpt).
+    - cbn [bind]. rewrite dtree_of_unfold. change (0 + 1)%Z with 1%Z. reflexivity.
+    - pose proof (nodes_le_size codes t) as Hs. assert (Hnk : nodes t = t :: forest_nodes (t_kids t)) by (destruct t; reflexivity).
+      rewrite Hnk in Hs. cbn [length] in Hs.
+      pose proof (evs_bytes codes bigend t dd o) as Hb. apply (f_equal nlen) in Hb. rewrite enc_tree_len in Hb.
+      rewrite evs_unfold, xbytes_cons in Hb. fold (tail_evs_of codes bigend dd o t) in Hb.
+      change (be e) with bigend. unfold tail_evs.
+      rewrite !xbytes_cons, xbytes_app, !app_length. rewrite nlen_app in Hb. unfold nlen in *. lia.
+  Qed.
+End UnitTree.
